@@ -238,6 +238,25 @@ func (w *fileWeaver) weave() {
 		case *ast.CommClause:
 			w.list(x.Body)
 		case *ast.CallExpr:
+			// sync.Pool: Get/Put go through the simulator's deterministic model of the pool (which buffer a Get
+			// returns would otherwise depend on the P the goroutine happens to run on and on GC timing)
+			if sel, ok := x.Fun.(*ast.SelectorExpr); ok && (sel.Sel.Name == "Get" || sel.Sel.Name == "Put") {
+				if fn, ok := w.pkg.TypesInfo.Uses[sel.Sel].(*types.Func); ok && fn.Pkg() != nil && fn.Pkg().Path() == "sync" {
+					if recv := fn.Type().(*types.Signature).Recv(); recv != nil && strings.HasSuffix(recv.Type().String(), "sync.Pool") {
+						ptr := "(" + w.text(sel.X) + ")"
+						if _, isPtr := w.pkg.TypesInfo.TypeOf(sel.X).(*types.Pointer); !isPtr {
+							ptr = "&" + ptr
+						}
+						w.delRange(x.Pos(), x.Lparen+1)
+						if sel.Sel.Name == "Get" {
+							w.ins(x.Pos(), "simrt.PoolGet("+ptr)
+						} else {
+							w.ins(x.Pos(), "simrt.PoolPut("+ptr+", ")
+						}
+						w.stats["pool"]++
+					}
+				}
+			}
 			if w.simos {
 				if sel, ok := x.Fun.(*ast.SelectorExpr); ok {
 					if id, ok := sel.X.(*ast.Ident); ok {
